@@ -158,6 +158,25 @@ example : rehandleTrigger [(7, { gate := { mapSize := 1048576, chunk := 1048576,
     rehandleMap [(7, { gate := { mapSize := 1048576, chunk := 1048576, openTxs := 1 } })] 7 962560 = 2097152 := by
   decide
 
+/-! ### spellings of one directory -/
+
+/-- **No two live gate states on one database.**  Whatever spelling `Store::new` is given: it either
+joins the registered environment (same key), is refused (another key resolving to a directory
+whose environment is open in this process), or opens a directory nobody has open.  In particular a
+handle never gets a fresh gate state for a directory that is already open (run `envkeys`: `.`, `..`,
+doubled separator, symlink and relative spellings are refused; a trailing slash is the same key). -/
+theorem alias_never_opens_second_gate (m : EnvMapD) (key dir : Nat)
+    (hopen : m.any (fun x => x.2.1 == dir) = true) :
+    storeNewOutcome m key dir ≠ .separate := by
+  unfold storeNewOutcome
+  split
+  · simp
+  · simp [hopen]
+
+theorem same_key_shares (m : EnvMapD) (key dir : Nat) (h : m.any (fun x => x.1 == key) = true) :
+    storeNewOutcome m key dir = .shared := by
+  unfold storeNewOutcome; simp [h]
+
 /-! ### the registry as read from the CURRENT source (`tools/gen_kvgate.py` → `Gen/KvGate.lean`) -/
 
 /-- **registry_is_the_modelled_one.**  In `store/src/lmdb.rs` as it is now: an `EnvState` literal
